@@ -35,7 +35,10 @@ def main(argv):
         from .grammar import Grammar
         F = Facts(wd)
         G = Grammar(wd, F)
-        return mod.run(F, G, tier, seed)
+        rc = mod.run(F, G, tier, seed)
+        if tier == "thorough" and rc in (0, 1) and not os.environ.get("VERIF_OUT"):
+            rc = _liveness(pid, rc)
+        return rc
     except AnalysisBroken as e:
         print("ANALYSIS-BROKEN property=%s: %s" % (pid, e))
         return 2
@@ -43,6 +46,41 @@ def main(argv):
         traceback.print_exc()
         print("ANALYSIS-BROKEN property=%s: internal error in the rule engine" % pid)
         return 2
+
+
+def _liveness(pid, rc):
+    """Thorough tier: every seeded change of this property (sub-agent changes, reverse-of-fix patches, own mutants,
+    behaviour-preserving variants) is applied to a scratch copy of the tree under analysis and the check is run on
+    it.  The outcome is appended to the evidence file; a contradiction is analysis-broken (exit 2) unless the main
+    run already found a violation."""
+    import json
+    from . import selftest
+    from .front import VERIF
+    res, problems = selftest.liveness(pid)
+    evp = os.path.join(VERIF, "evidence", pid + ".json")
+    try:
+        with open(evp) as f:
+            ev = json.load(f)
+        ev["coverage"]["liveness"] = [
+            {"seed": r["seed"], "expect": r.get("expect", "violation"), "skipped": r.get("skipped"),
+             "exit": (r["runs"].get(pid) or {}).get("exit"), "violations": (r["runs"].get(pid) or {}).get("violations", [])[:4]}
+            for r in res]
+        ev["coverage"]["liveness_problems"] = problems
+        with open(evp, "w") as f:
+            json.dump(ev, f, indent=1)
+    except (OSError, ValueError, KeyError):
+        pass
+    det = sum(1 for r in res if (r["runs"].get(pid) or {}).get("exit") == 1)
+    sil = sum(1 for r in res if r.get("expect") == "silent" and (r["runs"].get(pid) or {}).get("exit") == 0)
+    skp = sum(1 for r in res if "skipped" in r)
+    print("%s liveness: %d seeded change(s): %d detected, %d behaviour-preserving variant(s) silent, %d skipped (patch "
+          "does not apply to this tree)" % (pid, len(res), det, sil, skp))
+    for p in problems:
+        print("liveness problem: " + p)
+    if problems and rc == 0:
+        print("ANALYSIS-BROKEN property=%s: a rule went blind or raises a false alarm (see liveness problems)" % pid)
+        return 2
+    return rc
 
 
 if __name__ == "__main__":
